@@ -336,6 +336,32 @@ def compute_shared_sites(codes):
             if isinstance(v, type) and getattr(v, "__module__", "").startswith("selfies"):
                 for a in list(vars(v).values()):
                     note_wrapper(a)
+    # names of mutable class-level attributes and function attributes, functions with mutable defaults
+    attr_names = set()
+    mutable_default_codes = set()
+
+    def note_fn(v):
+        f = getattr(v, "__wrapped__", v)
+        if isinstance(f, (staticmethod, classmethod)):
+            f = f.__func__
+        if isinstance(f, types.FunctionType):
+            for k, x in vars(f).items():
+                if isinstance(x, mutable):
+                    attr_names.add(k)
+            dflt = tuple(f.__defaults__ or ()) + tuple((f.__kwdefaults__ or {}).values())
+            if any(isinstance(x, mutable) for x in dflt):
+                mutable_default_codes.add(f.__code__)
+
+    for name, m in sorted(sys.modules.items()):
+        if m is None or not (name == "selfies" or name.startswith("selfies.")):
+            continue
+        for v in list(vars(m).values()):
+            note_fn(v)
+            if isinstance(v, type) and getattr(v, "__module__", "").startswith("selfies"):
+                for k, a in list(vars(v).items()):
+                    note_fn(a)
+                    if isinstance(a, mutable) and not k.startswith("__"):
+                        attr_names.add(k)
     stored = collections.defaultdict(set)
     ins_cache = {}
     for co in codes:
@@ -352,6 +378,10 @@ def compute_shared_sites(codes):
                 v = g.get(ins.argval)
                 if ins.argval in stored[co.co_filename] or isinstance(v, mutable) or hasattr(v, "cache_info"):
                     offs.add(ins.offset)
+            elif ins.opname in ("LOAD_ATTR", "STORE_ATTR", "DELETE_ATTR", "LOAD_METHOD") and ins.argval in attr_names:
+                offs.add(ins.offset)      # a class-level mutable attribute / a function attribute
+        if co in mutable_default_codes:
+            offs.add(2)                   # a function with a mutable default argument
         if co in wrapped:
             offs.add(2)
         if offs:
